@@ -37,6 +37,23 @@ describe(
 def split_call_in(cx: Cx, fn, ob: Ob):
     s = cx.summary(fn, ob.id)
     hits = [(c, ev, ctx) for c, ev, ctx in s.calls() if op(c[1]) == "func" and c[1][1] == f"{API}._split"]
+    if not hits:
+        # a splitter bound once in __init__ (self.split = partial(_split, sep=delimiter)) and called here: the same
+        # call with the separator FIXED to what the constructor was given - not the attribute format_curie reads
+        init = cx.model.functions.get(f"{CONV}.__init__")
+        if init is not None and fn.self_name:
+            me_ = ("param", fn.self_name)
+            bound = {}
+            for ev0, _ in cx.summary(init, ob.id).walk():
+                if ev0.kind == "store" and op(ev0.a) == "attr" and ev0.a[1] == ("param", init.self_name) and op(ev0.b) == "bound" and ev0.b[1] == ("func", f"{API}._split"):
+                    bound[ev0.a[2]] = ev0.b
+            for c, ev, ctx in s.calls():
+                if op(c[1]) == "attr" and c[1][1] == me_ and c[1][2] in bound:
+                    b = bound[c[1][2]]
+                    kw = dict(b[3])
+                    kw.update(dict(c[3]))
+                    kw = {k: (("snapshot", v[1]) if op(v) == "param" else v) for k, v in kw.items()}
+                    hits.append((("call", ("func", f"{API}._split"), tuple(b[2]) + tuple(c[2]), tuple(sorted(kw.items()))), ev, ctx))
     # ReferenceTuple.from_curie(curie, sep=...) is the same split (checked below / in C15-D3)
     rt = [(c, ev, ctx) for c, ev, ctx in s.calls() if c[1] == ("attr", ("cls", f"{API}.ReferenceTuple"), "from_curie")]
     if rt and not hits:
@@ -227,6 +244,14 @@ def check_parse_curie_delimiter(cx: Cx, ob: Ob) -> None:
         sep = dict(c[3]).get("sep")
         if sep is None:
             ob.violate(fn.qualname, where(fn, ev.line), "parse_curie calls _split without sep=self.delimiter: converters with a non-default delimiter split at ':'", witness="Converter(..., delimiter='/').expand('a/1')", detail="sep-missing")
+        elif op(sep) == "snapshot":
+            ob.violate(
+                fn.qualname,
+                where(fn, ev.line),
+                f"parse_curie splits with a splitter bound in __init__ to the constructor argument `{sep[1]}`: the separator is fixed at construction, while format_curie / compress read self.delimiter every time - after `converter.delimiter = ...` CURIEs are written with one delimiter and parsed with another",
+                witness="c.delimiter = '_': compress gives 'GO_1', is_curie('GO_1') is False and expand('GO_1') is None",
+                detail="sep-snapshot",
+            )
         elif sep != ("attr", me, "delimiter"):
             ob.violate(fn.qualname, where(fn, ev.line), f"parse_curie splits at `{show(sep)}`, not self.delimiter", detail="sep")
 
@@ -745,3 +770,12 @@ def x22(cx: Cx, ob: Ob) -> None:
     from .c09 import d3 as subconverter_selection
 
     subconverter_selection(cx, ob)
+
+
+@obligation("C02-X16", "'its unique record' under incremental construction (shared with C05-D3/D5/D6): _match_record finds every existing record an incoming record overlaps with, add_record rejects a record that overlaps several and _merge adds names by exact membership - otherwise add_record / chain hand one prefix to two records and expand answers from the wrong one", floor=8)
+def x16(cx: Cx, ob: Ob) -> None:
+    from .c05 import check_match_record, check_merge, d3 as add_record_guards
+
+    check_match_record(cx, ob)
+    check_merge(cx, ob)
+    add_record_guards(cx, ob)
